@@ -1002,7 +1002,7 @@ Plan gen_macro_plan(Rng &rng, bool thorough) {
       text += "DEFINE ";
       if (rng.chance(1, 3)) text += "PRIO " + std::to_string(rng.chance(1, 4) ? 1000000 + (long)rng.below(3) - 1 : (long)rng.below(4)) + " ";
       int rl = (int)rng.range(1, 3), nslots = 0;
-      for (int i = 0; i < rl; i++) { if (rng.chance(1, 4)) { text += std::string(slots[rng.below(3)]) + " "; nslots++; } else text += std::string(lits[rng.below(5)]) + " "; }
+      for (int i = 0; i < rl; i++) { if (rng.chance(1, 4)) { text += std::string(slots[rng.below(3)]) + " "; nslots++; } else text += std::string(lits[rng.below(7)]) + " "; }
       text += "AS ";
       int bl = (int)rng.range(0, 4);
       for (int i = 0; i < bl; i++) {
@@ -1104,5 +1104,15 @@ Plan gen_fs_plan(const std::string &prop, Rng &rng, long long sub, const std::st
   p.note = nf ? "valid project + faults" : "valid project, no fault";
   return p;
 }
+
+Project random_macro_project(Rng &rng, bool random_set) {
+  for (int tries = 0; tries < 20; tries++) {
+    Plan mp = gen_macro_plan(rng, false);
+    bool is_random = mp.note == "random macro set";
+    if (is_random == random_set && !(mp.knobs.count("growing") && !is_random)) return mp.proj;
+  }
+  return gen_macro_plan(rng, false).proj;
+}
+
 
 }  // namespace sim
